@@ -326,9 +326,31 @@ MAP_AUTOREF = [
 ]
 
 
+def _guards_refusal(m):
+    """The mutated line belongs to a condition that guards `raise ValueError/KeyError/...`
+    (a refusal that C17 and C14 judge)."""
+    try:
+        b = open(os.path.join(REPO, m['file']), 'rb').read()
+    except OSError:
+        return False
+    tail = b[m['end']:m['end'] + 400].decode('utf8', 'replace').split('\n')[:6]
+    return any(l.strip().startswith('raise ') and 'AssertionError' not in l for l in tail)
+
+
 def checks_for(m):
+    cs = list(_checks_for(m))
+    if m['kind'] in ('cmp', 'boolop', 'drop-not', 'const') and _guards_refusal(m):
+        for c in ('C17', 'C14'):
+            if c not in cs:
+                cs.append(c)
+    return cs
+
+
+def _checks_for(m):
     fn = m['func'].split('.')[-1]
     if m['file'] == 'dd/bdd.py':
+        if fn == 'apply':
+            return ['C01', 'C03', 'C02']
         for names, cs in MAP_BDD:
             if fn in names:
                 return cs
